@@ -2,11 +2,13 @@
 import math
 import numpy as np
 
-from mc import core, fixtures as fx
+from mc import core, fixtures as fx, rthist
 from mc.ref import rt, opac
 
 ID = 'C02'
-RULE = ('cases = full product of the core dimensions (layers x temperature profile x opacity magnitude x '
+RULE = ('two phases.  histories: one live model, every sequence of parameter updates (13 letters incl. the stellar '
+        'temperature) to depth 2 (thorough 3) and depth 3 (4) over a sub-alphabet, compared with a fresh model after every '
+        'update.  inputs: cases = full product of the core dimensions (layers x temperature profile x opacity magnitude x '
         'quadrature points) plus every case with <= 2 deviations from the default over all 12 dimensions '
         '(thorough: <= 3 deviations, larger core); each case builds a fresh Emission/DirectImage model '
         '(cross-sections in memory or k-tables from pickle files through KTableCache) and compares model() '
@@ -145,6 +147,30 @@ def case_fn(case):
     return r
 
 
+# ---------------------------------------------------------------------------------------------
+# history phase
+# ---------------------------------------------------------------------------------------------
+HIST_ALPHABET = [['T', 700.0], ['T', 1900.0], ['planet_radius', 0.7], ['planet_radius', 1.4], ['planet_mass', 0.5],
+                 ['H2O', 1e-6], ['H2O', 1e-2], ['He_H2', 0.6], ['atm_max_pressure', 1e5], ['atm_min_pressure', 1e1],
+                 ['star_temperature', 3500.0], ['star_temperature', 7000.0], ['star_radius', 4e8]]
+HIST_REDUCED = [['T', 700.0], ['T', 1900.0], ['star_temperature', 3500.0], ['H2O', 1e-2], ['atm_max_pressure', 1e5]]
+
+
+def hist_build(case):
+    fx.reset_caches()
+    install({'mag': 'tau1', 'opmode': case['opmode']})
+    spec = {'kind': case['kind'], 'N': 3, 'T': ['iso', 1200.0], 'ngauss': 2,
+            'gases': [['H2O', ['const', 1e-4]], ['CH4', ['const', 3e-5]]],
+            'contribs': ['abs', ['cia', ['H2-He']], 'ray']}
+    return fx.build_model(spec)
+
+
+def hist_fn(case):
+    r = core.R(case)
+    rthist.run_history(r, case['hist'], lambda: hist_build(case), '%s/%s' % (case['kind'], case['opmode']))
+    return r
+
+
 def explore(ctx):
     if ctx.tier == 'quick':
         cases = core.product_cases(DIMS, core=['N', 'T', 'mag', 'ngauss'], d=2)
@@ -152,4 +178,14 @@ def explore(ctx):
     else:
         cases = core.product_cases(DIMS, core=['N', 'T', 'mag', 'ngauss', 'opmode', 'kind', 'contribs'], d=3)
         ctx.bounds.update(deviations=3, core='N x T x mag x ngauss x opmode x kind x contribs')
-    ctx.run_cases('case_fn', cases)
+    ctx.run_cases('case_fn', cases, phase='inputs')
+    if ctx.tier == 'quick':
+        hs = rthist.histories(HIST_ALPHABET, 2, HIST_REDUCED, 3)
+        cfgs = [('emission', 'xsec'), ('emission', 'kspread'), ('directimage', 'xsec')]
+    else:
+        hs = rthist.histories(HIST_ALPHABET, 3, HIST_REDUCED, 4)
+        cfgs = [(k, o) for k in ('emission', 'directimage') for o in ('xsec', 'kdeg', 'kspread')]
+    hcases = [{'kind': k, 'opmode': o, 'hist': h} for (k, o) in cfgs for h in hs]
+    ctx.bounds.update(history_depth_full_alphabet=2 if ctx.tier == 'quick' else 3,
+                      history_depth_reduced_alphabet=3 if ctx.tier == 'quick' else 4, histories=len(hcases))
+    ctx.run_cases('hist_fn', hcases, phase='histories')
